@@ -226,10 +226,11 @@ class HarnessSpin(Exception):
 
 
 def parse_mode(mode):
-    """'b<bs>' or 'b<bs>c<k>' → (buffer size, chunk size or None); 'r<k>' → (0, k)"""
+    """'b<bs>' or 'b<bs>c<k>' → (buffer size, chunk size or None); 'r<k>' → (0, k); a trailing 'a' (uploads):
+    one read(k), then read() for all the rest"""
     if mode[0] == "r" and mode != "raw":
         return 0, int(mode[1:])
-    body = mode[1:]
+    body = mode[1:].rstrip("a")
     if "c" in body:
         bs, k = body.split("c")
         return int(bs), int(k)
@@ -264,6 +265,7 @@ def do_download(client, idx, sub, data, sized, force, offers, mode, record=None)
             n = fp.write(rem[:k])
             rem = rem[n:]
         fp.close()
+        fp.close()          # closing is idempotent: a second close (explicit close inside `with`) sends nothing
         return
     if mode[0] == "t":
         # text mode (TextIOWrapper over the buffered stream); 't1' = line buffering
@@ -314,6 +316,8 @@ def do_upload(client, idx, sub, mode):
     with client.open(idx, sub, "rb", buffering=bs) as fp:
         if k is None:
             return fp.read()
+        if mode.endswith("a"):
+            return fp.read(k) + fp.read()
         out = b""
         while True:
             d = fp.read(k)
@@ -525,7 +529,8 @@ def shrink_candidates(op):
 # ---------------------------------------------------------------------- generators
 MODES = ["raw", "b2", "b7", "b8", "b1024", "api"]
 CHUNKED_W = ["b2c1", "b3c1", "b3c2", "b4c3", "b7c3", "b8c5", "b1024c4"]        # BufferedWriter(bs), write(k bytes) …
-CHUNKED_R = ["r1", "r3", "r9", "b2c1", "b3c2", "b5c3", "b7c3", "b8c5", "b1024c4", "b7c100"]   # read(k) …
+CHUNKED_R = ["r1", "r3", "r9", "b2c1", "b3c2", "b5c3", "b7c3", "b8c5", "b1024c4", "b7c100",
+             "b2c1a", "b3c2a", "b5c3a", "b6c1a", "b8c3a"]   # read(k) …
 MUXES = [(0x2000, 0), (0x1018, 1), (0xFFFF, 255), (0x0001, 0), (0x6040, 0), (0x1000, 0)]
 ODTYPES = ["x", "n"] + [str(t) for t in sorted(c04.SPEC)] + ["1", "8", "17", "9", "10", "11", "15", "12", "32"]
 
@@ -544,7 +549,7 @@ def finish_op(held, style, mode, xfers_raw):
         for x, seen, rd in zip(xfers, rec, reads):
             if x[0] == "d":
                 out.append(dl_token(x[1], x[2], x[3], x[4], x[5], seen))
-            elif mode[0] in "bt" and rd:
+            elif mode[0] in "bt" and rd and not mode.endswith("a"):
                 out.append(f"u:{x[1]}:{x[2]}:{x[3]}:{c04.nl([a_ for a_, _ in rd])}")
             else:
                 out.append(f"u:{x[1]}:{x[2]}:{x[3]}")
